@@ -631,17 +631,23 @@ def compare(ctx, model, harness, ops, tag, report=True):
         ctx.broken.append("runner(%s): model rc=%d impl rc=%d %s" % (tag, rc1, rc2, err[-300:]))
     if bad and report:
         first = bad[0]
-        small = minimise(ops, first)
-        rc1b, m2, rc2b, i2, _, _ = run_both(ctx, model, harness, small, tag + "-min")
-        bad2 = vlib.diff_results(m2, i2)
-        if bad2:
-            byid = {o[0]: o for o in small}
-            f2 = sorted(bad2, key=lambda i: order.get(i, 1 << 30))[0]
-            ctx.violation({"kind": "ops", "cases": [list(o) for o in small], "first_disagreement": f2,
-                           "case": list(byid.get(f2, ())), "model": m2.get(f2), "impl": i2.get(f2),
-                           "what": "real BlockTree / contextual rule differs from the proved model (independent reference)"})
-        else:
-            ctx.broken.append("corr:Pow.accept: disagreement on %s not reproducible after slicing (model=%r impl=%r)"
+        idx = order.get(first, len(ops) - 1)
+        # 1st attempt: only the tree of the first disagreeing case; 2nd: the whole prefix (a defect that depends on
+        # which parameter set was used first in the process - F6 - needs the other trees)
+        reported = False
+        for tag2, small in (("-min", minimise(ops, first)), ("-prefix", ops[:idx + 1])):
+            rc1b, m2, rc2b, i2, _, _ = run_both(ctx, model, harness, small, tag + tag2)
+            bad2 = vlib.diff_results(m2, i2)
+            if bad2:
+                byid = {o[0]: o for o in small}
+                f2 = sorted(bad2, key=lambda i: order.get(i, 1 << 30))[0]
+                ctx.violation({"kind": "ops", "cases": [list(o) for o in small], "first_disagreement": f2,
+                               "case": list(byid.get(f2, ())), "model": m2.get(f2), "impl": i2.get(f2),
+                               "what": "real BlockTree / contextual rule differs from the proved model (independent reference)"})
+                reported = True
+                break
+        if not reported:
+            ctx.broken.append("corr:Pow.accept: disagreement on %s not reproducible on re-run (model=%r impl=%r)"
                               % (first, mres.get(first), ires.get(first)))
     return mres, ires, bad, log
 
